@@ -16,6 +16,8 @@ for p in props:
         mod = importlib.import_module('rules.' + pid)
         meta = mod.META
     except Exception as e:  # noqa
+        if os.path.exists(os.path.join(VERIF, 'rules', pid + '.py')):
+            raise SystemExit('rules/%s.py exists but does not import (%s): fix it; a broken module must not silently turn its property into not_applicable' % (pid, e))
         na.append({'property_id': pid, 'reason': 'no static check built yet for this property in this tree of /verif (see DESIGN.md section 4 for the planned clauses)'})
         continue
     checks.append({
